@@ -389,6 +389,63 @@ func GenLeaf(r *hx.Rng, kind string) []byte {
 			return Box(kind, Cat(piff, vf(0, fl), U32(uint32(cnt)), raw))
 		}
 		return Box(kind, Cat(r.Bytes(16, nil), r.Bytes(r.Intn(24), nil)))
+	case "sgpd":
+		ver := byte(r.Pick(1, 1, 2))
+		gt := []string{"seig", "roll", "rap ", "alst", "prol", "tele"}[r.Intn(6)]
+		n := r.Intn(4)
+		var entries [][]byte
+		for i := 0; i < n; i++ {
+			var e []byte
+			switch gt {
+			case "seig":
+				e = Cat([]byte{0, byte(r.U64()), 1, byte(r.Pick(0, 8, 16))}, r.Bytes(16, nil))
+				if e[3] == 0 {
+					k := r.Pick(8, 16)
+					e = Cat(e, []byte{byte(k)}, r.Bytes(k, nil))
+				}
+			case "roll":
+				e = U16(uint16(r.U64()))
+			case "rap ":
+				e = []byte{byte(r.U64())}
+			case "alst":
+				rc := r.Intn(3)
+				e = Cat(U16(uint16(rc)), U16(uint16(r.U64())))
+				for j := 0; j < rc; j++ {
+					e = append(e, U32(r32(r))...)
+				}
+				for j := r.Intn(3); j > 0; j-- {
+					e = Cat(e, U16(uint16(r.U64())), U16(uint16(r.U64())))
+				}
+			default:
+				e = r.Bytes(1+r.Intn(6), nil)
+			}
+			entries = append(entries, e)
+		}
+		// a default length only when all entries have the same size
+		dl := uint32(0)
+		if n > 0 && r.Intn(2) == 0 {
+			same := true
+			for _, e := range entries {
+				if len(e) != len(entries[0]) {
+					same = false
+				}
+			}
+			if same {
+				dl = uint32(len(entries[0]))
+			}
+		}
+		body := Cat(vf(ver, 0), []byte(gt), U32(dl))
+		if ver >= 2 {
+			body = append(body, U32(uint32(r.Intn(3)))...)
+		}
+		body = append(body, U32(uint32(n))...)
+		for _, e := range entries {
+			if dl == 0 {
+				body = append(body, U32(uint32(len(e)))...)
+			}
+			body = append(body, e...)
+		}
+		return Box(kind, body)
 	case "subs":
 		ver := byte(r.Pick(0, 1, 1, 2))
 		n := r.Intn(4)
@@ -556,7 +613,7 @@ var GenKinds = []string{"ftyp", "styp", "free", "skip", "mdat", "mfhd", "tfhd", 
 	"stsc", "stsz", "stco", "stss", "co64", "sdtp", "ctts", "elst", "saiz", "saio", "sbgp", "prft", "tenc", "frma", "vmhd",
 	"smhd", "nmhd", "sthd", "mfro", "mehd", "tfra", "pssh",
 	"url ", "avcC", "btrt", "pasp", "colr", "clap", "schm", "cslg", "stsd", "dref", "avc1", "avc3", "hvc1", "hev1", "encv", "mp4a", "enca",
-	"senc", "emsg", "elng", "kind", "hvcC", "subs", "uuid"}
+	"senc", "emsg", "elng", "kind", "hvcC", "subs", "uuid", "sgpd"}
 
 // Exhaustive returns well-formed boxes covering EVERY combination of the optional-field flag bits of the
 // boxes that have them (trun: 6 bits x version 0/1 x 0,1,3 samples; tfhd: 7 bits; tfdt, sidx, mvhd, tkhd,
